@@ -464,6 +464,11 @@ def binding_selftest(v, binary):
     t = copy.deepcopy(good)
     t[-1]["lock"] = 1
     results.append(("lock value lowered", observe_reports(t, "C02", "LockDominates"), not accepted(t)))
+    # 5. a log line of the run dropped (output protocol of RunTrace)
+    t = copy.deepcopy(good)
+    li = next(i for i, e in enumerate(t) if e.get("ev") == "log" and e["code"] == 21)
+    del t[li]
+    results.append(("log line 'Num. inserted' dropped", True, not accepted(t)))
     v.cov["binding_selftest"] = [{"corruption": c, "observe_reports_property": a, "runtrace_rejects": b} for c, a, b in results]
     bad = [c for c, a, b in results if not (a and b)]
     if bad:
